@@ -4,14 +4,15 @@
    through the real operations API where there is one) with a scripted ebuild processor:
      {tid, i, cfg, op, stage, ignore, force, quiet, cas, script,            -- inputs
       ran: [{ph, up, sb, repl, shut, rel, wrote}], notes: [{st, ok}], exc, ret,  -- what happened
+      real, bash: [phase]      -- real-daemon sessions: the phase functions the ebuild logged from bash
       st: {top, a: {done, dir, stamps, cn, env, cas, vf, mark}, b: {...}}}   -- projected state after
    op in call | cleanup | reload | new | resume | finish, plus
-     pebuild_end {phases, noauto, ops}   the operations scripts/pebuild.py main() performed
+     pebuild_end {phases, noauto, first, built, ops}   the operations scripts/pebuild.py main() performed
      api         {descs, en, dis, enabled, raw, attrs, sup, calls}   operations API cases.
    Each step is judged from the previously OBSERVED state (re-synchronising), so a deviation never
    hides the rest of a history.  Clause names:
      PhaseSequence (+ Rerun / OutOfOrder / RanAfterFailure naming the way it is wrong), PhaseFlags,
-     ProcessorDiscipline, Raised, Ret, Notes, Post_<field> (new/a half), PostOld_<field> (b half),
+     ProcessorDiscipline, Raised, Ret, Notes, DaemonSawPhases, Post_<field> (new/a half), PostOld_<field> (b half),
      Post_top, SessionShape, Api_enabled / Api_raw / Api_attrs / Api_supports / Api_call.        *)
 EXTENDS TraceLib
 VARIABLES l, st
@@ -70,6 +71,8 @@ JudgeOp(cur, e) ==
              \cup (IF e.exc = x.exc THEN {} ELSE {"Raised"})
              \cup (IF e.exc = "" /\ ~e.ret THEN {"Ret"} ELSE {})
              \cup (IF e.notes = x.notes THEN {} ELSE {"Notes"})
+             \* sessions with the real daemon: the phase functions of the ebuild that bash really entered
+             \cup (IF e.real /\ e.bash # Names(SelectSeq(e.ran, LAMBDA y : y.ph # "fetch")) THEN {"DaemonSawPhases"} ELSE {})
              \cup (IF obs.top = x.s.top THEN {} ELSE {"Post_top"})
              \cup LeafDiff("Post", obs.a, x.s.a)
              \cup LeafDiff("PostOld", obs.b, x.s.b)
@@ -81,7 +84,9 @@ JudgePebuild(e) ==
       raisedAt == {k \in DOMAIN e.ops : e.ops[k].raised}
       want == IF raisedAt = {} THEN full
               ELSE SubSeq(full, 1, CHOOSE k \in raisedAt : \A j \in raisedAt : k <= j)
-  IN IF Len(e.ops) <= Len(full) /\ seen = want THEN {} ELSE {"SessionShape"}
+      \* the object: a fresh one, clean=False (stamps survive), tests forced iff asked for by name
+      built == e.first = "new" /\ ~e.built.clean /\ (e.built.force_test <=> \E k \in DOMAIN e.phases : e.phases[k] = "test")
+  IN IF built /\ Len(e.ops) <= Len(full) /\ seen = want THEN {} ELSE {"SessionShape"}
 
 \* operations API (operations/__init__.py base)
 JudgeApi(e) ==
